@@ -578,6 +578,46 @@ def h_added_geometry_terminal(eng, ff, position):
         eng.check(not moved, "input-heavy-atoms-not-displaced-by-hydrogen-building", note=f"{position} {resname}: input atoms moved although debumping and optimisation are off: {moved[:4]}")
 
 
+def h_partly_protonated_terminus(eng, ff):
+    """an input that already carries hydrogens, with the N-terminal ammonium group only partly protonated (one of H, H2,
+    H3 absent - selector; residue type - selector): the real pipeline puts the missing hydrogen on the vacant tetrahedral
+    site - at template distance from N and not on top of a hydrogen that is already there (round 7: input hydrogens that
+    were not listed among N's bonds made the completion ignore them)"""
+    from pdb2pqr import main, utilities
+
+    resname = ["ALA", "SER", "LEU", "GLY"][eng.choice("residue", 4)]
+    gone = ["H", "H2", "H3"][eng.choice("absent_hydrogen", 3)]
+    opt = eng.flag("opt")
+    seq = [resname, "ALA", "ALA"]
+    bm0, defn0 = fixtures.prepared(fixtures.peptide_lines(seq))
+    main.non_trivial(fixtures.Args(ff=ff, pka_method=None, debump=False, opt=False), bm0, None, defn0, False)
+    lines, serial = [], 1
+    for r in bm0.residues:
+        for a in r.atoms:
+            if r is bm0.residues[0] and a.name == gone:
+                continue
+            lines.append(fixtures.atom_line(serial, a.name, r.name, "A", r.res_seq, a.x, a.y, a.z, element="H" if a.is_hydrogen else a.name[0]))
+            serial += 1
+    lines += ["TER", "END"]
+    try:
+        bm, defn = fixtures.prepared(lines)
+        main.non_trivial(fixtures.Args(ff=ff, pka_method=None, debump=False, opt=opt), bm, None, defn, False)
+    except (ValueError, KeyError, TypeError, AttributeError) as e:
+        eng.check(True, "loud-failure-tolerated", note=type(e).__name__)
+        return
+    r = bm.residues[0]
+    n = r.get_atom("N")
+    hs = [a for a in r.atoms if a.name in ("H", "H2", "H3")]
+    eng.check(len(hs) == 3, "terminal-hydrogens-complete", note=f"N-terminal {resname} given without {gone}: hydrogens on N after the run {[a.name for a in hs]}")
+    for a in hs:
+        d = utilities.distance(a.coords, n.coords)
+        eng.check(bool(abs(d - 1.01) < 0.12), "hydrogen-at-template-distance-from-its-topology-parent", note=f"N-terminal {resname} given without {gone}: {a.name} is {d:.2f} A from N")
+        for b in hs:
+            if b is not a:
+                dd = utilities.distance(a.coords, b.coords)
+                eng.check(bool(dd > 1.2), "no-coincident-atoms", note=f"N-terminal {resname} given without {gone}: {a.name} and {b.name} are {dd:.2f} A apart (tetrahedral sites are 1.6-1.7 A apart)")
+
+
 def h_neutral_terminus_locality(eng, ff="parse"):
     """--neutraln / --neutralc rebuild hydrogens of the terminal residues only: every atom of every NON-terminal
     residue - in particular the amide H of a later residue of the same type as the terminal one - is placed exactly
@@ -692,6 +732,7 @@ def obligations(tier):
     for r, ox in (("SER", "OG"), ("THR", "OG1"), ("TYR", "OH")):
         obs.append(Obligation(f"three-bond-free-position-{r}", h_three_bond_free_position, dict(resname=r, oxygen=ox), group="free-position", time_cap=600))
     obs.append(Obligation("template-bonds-are-bonds", table_template_bonds, {}, kind="table", group="templates"))
+    obs.append(Obligation("partly-protonated-terminus-amber", h_partly_protonated_terminus, dict(ff="amber"), group="added-geometry", time_cap=1500))
     obs.append(Obligation("neutral-terminus-locality-parse", h_neutral_terminus_locality, dict(ff="parse"), group="added-geometry", time_cap=1500))
     for ff in ("parse",) if tier == "quick" else ("parse", "amber", "charmm"):
         obs.append(Obligation(f"added-water-{ff}", h_added_water, dict(ff=ff), group="added-geometry", time_cap=1500))
